@@ -276,6 +276,8 @@ type Association struct {
 	myNextRSN        uint32
 	reconfigs        map[uint32]*chunkReconfig
 	reconfigRequests map[uint32]*paramOutgoingResetRequest
+	// request sequence numbers of the peer's reset requests that were performed
+	performedResetRequests map[uint32]struct{}
 
 	// Non-RFC internal data
 	sourcePort              uint16
@@ -3663,6 +3665,17 @@ func (a *Association) handleReconfigParam(raw param) (*packet, error) {
 			// https://chromium.googlesource.com/external/webrtc/+/refs/heads/main/net/dcsctp/socket/stream_reset_handler.cc#271
 			return nil, fmt.Errorf("%w: %d", ErrTooManyReconfigRequests, len(a.reconfigRequests))
 		}
+		if _, done := a.performedResetRequests[par.reconfigRequestSequenceNumber]; done {
+			// A retransmission of a request that was already performed (its response
+			// was lost or is late): repeat the response, do not reset again. The
+			// identifiers may have been reused by new streams since.
+			return a.createPacket([]chunk{&chunkReconfig{
+				paramA: &paramReconfigResponse{
+					reconfigResponseSequenceNumber: par.reconfigRequestSequenceNumber,
+					result:                         reconfigResultSuccessPerformed,
+				},
+			}}), nil
+		}
 		a.reconfigRequests[par.reconfigRequestSequenceNumber] = par
 		resp := a.resetStreamsIfAny(par)
 		if resp != nil {
@@ -3718,6 +3731,23 @@ func (a *Association) resetOutgoingStreamSequenceNumbers(reconfigRequestSequence
 }
 
 // The caller should hold the lock.
+// rememberPerformedResetRequest records that the peer's reset request rsn was
+// performed. Only the most recent maxReconfigRequests sequence numbers are kept.
+// The caller should hold the lock.
+func (a *Association) rememberPerformedResetRequest(rsn uint32) {
+	if a.performedResetRequests == nil {
+		a.performedResetRequests = map[uint32]struct{}{}
+	}
+	a.performedResetRequests[rsn] = struct{}{}
+	if len(a.performedResetRequests) > 2*maxReconfigRequests {
+		for old := range a.performedResetRequests {
+			if sna32LT(old, rsn-maxReconfigRequests) {
+				delete(a.performedResetRequests, old)
+			}
+		}
+	}
+}
+
 func (a *Association) resetStreamsIfAny(resetRequest *paramOutgoingResetRequest) *packet {
 	result := reconfigResultSuccessPerformed
 	if sna32LTE(resetRequest.senderLastTSN, a.peerLastTSN()) {
@@ -3735,6 +3765,7 @@ func (a *Association) resetStreamsIfAny(resetRequest *paramOutgoingResetRequest)
 			delete(a.streams, s.streamIdentifier)
 		}
 		delete(a.reconfigRequests, resetRequest.reconfigRequestSequenceNumber)
+		a.rememberPerformedResetRequest(resetRequest.reconfigRequestSequenceNumber)
 	} else {
 		a.log.Debugf("[%s] resetStream(): senderLastTSN=%d > peerLastTSN=%d",
 			a.name, resetRequest.senderLastTSN, a.peerLastTSN())
